@@ -13,6 +13,7 @@ def FsOp.safe : FsOp → Bool
   | .write f _ => f ≠ .dump
   | .close _ => true
   | .rename s d => d ≠ .dump ∧ s ≠ .dump
+  | .remove f => f ≠ .dump
 
 theorem FS.run_nil (fs : FS) : fs.run [] = fs := rfl
 theorem FS.run_cons (fs : FS) (op : FsOp) (ops : List FsOp) : fs.run (op :: ops) = (fs.apply op).run ops := rfl
@@ -27,6 +28,7 @@ theorem FS.apply_safe_dump (fs : FS) (op : FsOp) (h : op.safe = true) : (fs.appl
   | close f => rfl
   | rename s d =>
     cases s <;> cases d <;> simp_all [FsOp.safe, FS.apply, FS.set, FS.get] <;> split <;> simp_all
+  | remove f => cases f <;> simp_all [FsOp.safe, FS.apply, FS.set]
 
 theorem FS.run_safe_dump (fs : FS) (ops : List FsOp) (h : ∀ op ∈ ops, op.safe = true) : (fs.run ops).dump = fs.dump := by
   induction ops generalizing fs with
@@ -193,15 +195,16 @@ theorem chunkAt_data (c : Nat) (D : Bytes) (o : Nat) : (chunkAt c D o).data = (D
 -- receiver
 -- ------------------------------------------------------------------------------------------------
 
-theorem FS.run_receiveOps (fs : FS) (w : Bool) (c : Chunk) (B : Bytes)
+theorem FS.run_receiveOps (fs : FS) (m : Mode) (w : Bool) (c : Chunk) (B : Bytes)
     (hB : if c.isFirst then B = [] else fs.tmp1 = some B) :
-    (fs.run (receiveOps w c)).tmp = fs.tmp ∧
-    (if c.isLast then (fs.run (receiveOps w c)).dump = some (B ++ c.data) ∧ (fs.run (receiveOps w c)).tmp1 = none
-     else (fs.run (receiveOps w c)).dump = fs.dump ∧ (fs.run (receiveOps w c)).tmp1 = some (B ++ c.data)) := by
+    (fs.run (receiveOps m w c)).tmp = fs.tmp ∧ (fs.run (receiveOps m w c)).dump = fs.dump ∧
+    (if c.isLast then (match m with
+                       | .memory => (fs.run (receiveOps m w c)).snap
+                       | .file => (fs.run (receiveOps m w c)).tmp1) = some (B ++ c.data)
+     else (fs.run (receiveOps m w c)).tmp1 = some (B ++ c.data)) := by
   obtain ⟨d, f, l⟩ := c
-  cases f <;> cases l <;> cases w <;>
+  cases f <;> cases l <;> cases w <;> cases m <;>
     simp_all [receiveOps, FS.run, List.foldl, FS.apply, FS.get, FS.set]
-
 
 -- ------------------------------------------------------------------------------------------------
 -- sender
@@ -232,9 +235,9 @@ def Ser.holdsPrefix (r : Ser) (D : Bytes) (o : Nat) : Prop :=
 theorem set_chunkAt (r : Ser) (c : Nat) (hc : 1 ≤ c) (D : Bytes) (o : Nat) (h : r.holdsPrefix D o) :
     let ch := chunkAt c D o
     let r' := (r.setTransmissionData (some ch)).1
-    (r.setTransmissionData (some ch)).2 = ch.isLast ∧ r'.fs.tmp = r.fs.tmp ∧
-    (if ch.isLast then r'.fs.dump = some D ∧ r'.incOpen = false
-     else r'.fs.dump = r.fs.dump ∧ r'.holdsPrefix D (o + ch.data.length) ∧ 0 < ch.data.length) := by
+    (r.setTransmissionData (some ch)).2 = ch.isLast ∧ r'.fs.tmp = r.fs.tmp ∧ r'.fs.dump = r.fs.dump ∧
+    (if ch.isLast then r'.incoming = some D ∧ r'.incOpen = false ∧ r'.incSnap = true
+     else r'.holdsPrefix D (o + ch.data.length) ∧ 0 < ch.data.length) := by
   intro ch r'
   have hacc : ¬ ((!ch.isFirst && !r.incOpen) = true) := by
     rcases h with h | ⟨h, _⟩
@@ -246,27 +249,35 @@ theorem set_chunkAt (r : Ser) (c : Nat) (hc : 1 ≤ c) (D : Bytes) (o : Nat) (h 
     · rcases h with h | ⟨_, h⟩
       · exact absurd h ho
       · simp [ch, chunkAt_isFirst, ho, h]
-  have hrun := FS.run_receiveOps r.fs r.incOpen ch (D.take o) hB
+  have hrun := FS.run_receiveOps r.fs r.mode r.incOpen ch (D.take o) hB
   have hset2 : (r.setTransmissionData (some ch)).2 = ch.isLast := by
     simp [Ser.setTransmissionData, hacc]
-  have hsetfs : (r.setTransmissionData (some ch)).1.fs = r.fs.run (receiveOps r.incOpen ch) := by
-    simp [Ser.setTransmissionData, hacc]
-  have hsetinc : (r.setTransmissionData (some ch)).1.incOpen = !ch.isLast := by
-    simp [Ser.setTransmissionData, hacc]
-  simp only [r', hsetfs, hsetinc, hset2]
-  refine ⟨trivial, hrun.1, ?_⟩
+  have hsetfs : r'.fs = r.fs.run (receiveOps r.mode r.incOpen ch) := by
+    simp [r', Ser.setTransmissionData, hacc]
+  have hsetinc : r'.incOpen = !ch.isLast := by
+    simp [r', Ser.setTransmissionData, hacc]
+  have hsetsnap : r'.incSnap = (ch.isLast || r.incSnap) := by
+    simp [r', Ser.setTransmissionData, hacc]
+  have hsetmode : r'.mode = r.mode := by
+    simp [r', Ser.setTransmissionData, hacc]
+  refine ⟨hset2, by rw [hsetfs]; exact hrun.1, by rw [hsetfs]; exact hrun.2.1, ?_⟩
   by_cases hl : ch.isLast = true
   · have hemp : (D.drop o).take c = [] := by simpa [ch, chunkAt_isLast] using hl
     have hD := take_eq_self_of_chunk_empty D o c hc hemp
-    have := hrun.2
-    simp only [hl, if_true] at this ⊢
-    simp [this.1, hD, ch, chunkAt_data, hemp]
+    have h3 := hrun.2.2
+    simp only [hl, if_true] at h3 ⊢
+    have hdata : ch.data = [] := by simpa [ch, chunkAt_data] using hemp
+    rw [hdata, List.append_nil, hD] at h3
+    refine ⟨?_, by rw [hsetinc]; simp [hl], by rw [hsetsnap]; simp [hl]⟩
+    have hs : r'.incSnap = true := by rw [hsetsnap]; simp [hl]
+    simp only [Ser.incoming, hs, if_true, Ser.snapSlot, hsetmode, hsetfs]
+    cases hm : r.mode <;> simp only [hm] at h3 ⊢ <;> simpa [FS.get] using h3
   · have hne : (D.drop o).take c ≠ [] := by simpa [ch, chunkAt_isLast] using hl
-    have := hrun.2
-    simp only [hl] at this ⊢
-    refine ⟨this.1, Or.inr ⟨by rw [hsetinc]; simp [hl], ?_⟩, ?_⟩
-    · show (r.setTransmissionData (some ch)).1.fs.tmp1 = _
-      rw [hsetfs, this.2]
+    have h3 := hrun.2.2
+    simp only [hl] at h3 ⊢
+    simp only [Bool.false_eq_true, if_false] at h3 ⊢
+    refine ⟨Or.inr ⟨by rw [hsetinc]; simp [hl], ?_⟩, ?_⟩
+    · rw [hsetfs, h3]
       simp only [ch, chunkAt_data, take_add_chunk]
     · exact List.length_pos_iff.mpr (by simpa [ch, chunkAt_data] using hne)
 
@@ -285,7 +296,8 @@ theorem burst_succ (s : Ser) (n b : Nat) :
 /-- a burst with enough budget, fed to a receiver that holds the matching prefix, installs exactly `D` -/
 theorem burst_feed (b : Nat) : ∀ (s r : Ser) (n : Nat) (D : Bytes) (o : Nat),
     s.pid = .idle → 1 ≤ s.batch → s.cur n = some ⟨D, o⟩ → r.holdsPrefix D o → D.length - o + 1 ≤ b →
-    ((r.feed (s.burst n b).2).1.fs.dump = some D ∧ (r.feed (s.burst n b).2).1.incOpen = false ∧
+    ((r.feed (s.burst n b).2).1.incoming = some D ∧ (r.feed (s.burst n b).2).1.incOpen = false ∧
+     (r.feed (s.burst n b).2).1.incSnap = true ∧ (r.feed (s.burst n b).2).1.fs.dump = r.fs.dump ∧
      (r.feed (s.burst n b).2).1.fs.tmp = r.fs.tmp ∧
      (∃ k, (r.feed (s.burst n b).2).2 = List.replicate k false ++ [true] ∧ (s.burst n b).2.length = k + 1) ∧
      tlookup n (s.burst n b).1.trans = none ∧ (s.burst n b).1.pid = .idle ∧
@@ -306,7 +318,8 @@ theorem burst_feed (b : Nat) : ∀ (s r : Ser) (n : Nat) (D : Bytes) (o : Nat),
       rw [if_pos hl]
       simp only [hl, if_true] at hset
       simp only [feed_cons, feed_nil]
-      refine ⟨hset.2.2.1, hset.2.2.2, hset.2.1, ⟨0, by simp [hset.1, hl]⟩, tlookup_terase_self _ _, hp, ?_, by simp⟩
+      refine ⟨hset.2.2.2.1, hset.2.2.2.2.1, hset.2.2.2.2.2, hset.2.2.1, hset.2.1, ⟨0, by simp [hset.1, hl]⟩,
+        tlookup_terase_self _ _, hp, ?_, by simp⟩
       simp
     · have hget' : s.getTransmissionData n =
           ({ s with trans := tinsert n ⟨D, o + (chunkAt s.batch D o).data.length⟩ s.trans }, some (chunkAt s.batch D o)) := by
@@ -323,8 +336,8 @@ theorem burst_feed (b : Nat) : ∀ (s r : Ser) (n : Nat) (D : Bytes) (o : Nat),
       have := ih ({ s with trans := tinsert n ⟨D, o + (chunkAt s.batch D o).data.length⟩ s.trans })
         (r.setTransmissionData (some (chunkAt s.batch D o))).1 n D (o + (chunkAt s.batch D o).data.length)
         hp hc (cur_after_insert _ _ _) hpre (by omega)
-      obtain ⟨h1, h2, h3, ⟨k, hk1, hk2⟩, h5, h6, h7, h8⟩ := this
-      refine ⟨h1, h2, by rw [h3, htmp], ⟨k + 1, ?_, by simp [hk2]⟩, h5, h6, h7, ?_⟩
+      obtain ⟨h1, h2, h2a, h2b, h3, ⟨k, hk1, hk2⟩, h5, h6, h7, h8⟩ := this
+      refine ⟨h1, h2, h2a, by rw [h2b, hdump], by rw [h3, htmp], ⟨k + 1, ?_, by simp [hk2]⟩, h5, h6, h7, ?_⟩
       · simp [hk1, hret, hl, List.replicate_succ]
       · intro x hx
         rcases List.mem_cons.mp hx with hx | hx
@@ -342,49 +355,91 @@ theorem set_fs (r : Ser) (c : Option Chunk) : (r.setTransmissionData c).1.fs = r
   | none => rfl
   | some c => simp only; split <;> simp [FS.run_nil]
 
-theorem receiveOps_split (w : Bool) (c : Chunk) :
-    ∃ pre tail, receiveOps w c = pre ++ tail ∧ (∀ op ∈ pre, op.safe = true) ∧ tail.length ≤ 1 := by
+theorem receiveOps_safe (m : Mode) (w : Bool) (c : Chunk) : ∀ op ∈ receiveOps m w c, op.safe = true := by
   obtain ⟨d, f, l⟩ := c
-  cases l
-  · refine ⟨receiveOps w ⟨d, f, false⟩, [], by simp, ?_, by simp⟩
-    cases f <;> cases w <;> simp [receiveOps, FsOp.safe]
-  · refine ⟨(if f then (if w then [.close .tmp1] else []) ++ [.openW .tmp1] else []) ++ [.write .tmp1 d, .close .tmp1],
-      [.rename .tmp1 .dump], by simp [receiveOps], ?_, by simp⟩
-    cases f <;> cases w <;> simp [FsOp.safe]
+  cases f <;> cases l <;> cases w <;> cases m <;> simp [receiveOps, FsOp.safe]
 
-theorem acceptOps_split (r : Ser) (c : Option Chunk) :
-    ∃ pre tail, r.acceptOps c = pre ++ tail ∧ (∀ op ∈ pre, op.safe = true) ∧ tail.length ≤ 1 := by
+theorem acceptOps_safe (r : Ser) (c : Option Chunk) : ∀ op ∈ r.acceptOps c, op.safe = true := by
   unfold Ser.acceptOps
   cases c with
-  | none => exact ⟨[], [], rfl, by simp, by simp⟩
+  | none => simp
   | some c =>
     simp only
     split
-    · exact ⟨[], [], rfl, by simp, by simp⟩
-    · exact receiveOps_split _ _
+    · simp
+    · exact receiveOps_safe _ _ _
 
 theorem feedOps_nil (r : Ser) : r.feedOps [] = [] := rfl
 theorem feedOps_cons (r : Ser) (c : Option Chunk) (cs : List (Option Chunk)) :
     r.feedOps (c :: cs) = r.acceptOps c ++ (r.setTransmissionData c).1.feedOps cs := rfl
 
-/-- a kill anywhere inside an incoming transfer leaves the dump as it was at one of the call boundaries -/
-theorem feedOps_crash (cs : List (Option Chunk)) : ∀ (r : Ser) (k : Nat),
-    ∃ j, j ≤ cs.length ∧ (r.fs.crashAt (r.feedOps cs) k).dump = (r.feed (cs.take j)).1.fs.dump := by
+theorem feedOps_safe (cs : List (Option Chunk)) : ∀ (r : Ser), ∀ op ∈ r.feedOps cs, op.safe = true := by
   induction cs with
-  | nil => intro r k; exact ⟨0, by simp, by simp [feedOps_nil, FS.crashAt, FS.run, feed_nil]⟩
+  | nil => intro r op h; simp [feedOps_nil] at h
   | cons c cs ih =>
-    intro r k
-    obtain ⟨pre, tail, hsplit, hsafe, htail⟩ := acceptOps_split r c
-    rw [feedOps_cons]
-    by_cases hk : k ≤ pre.length
-    · refine ⟨0, by simp, ?_⟩
-      rw [hsplit, List.append_assoc, FS.crashAt_append_le _ _ _ _ hk, FS.crashAt_safe_dump _ _ _ hsafe]
-      simp [feed_nil]
-    · have hlen : (r.acceptOps c).length ≤ k := by rw [hsplit]; simp; omega
-      rw [FS.crashAt_append_ge _ _ _ _ hlen, ← set_fs]
-      obtain ⟨j, hj, hdump⟩ := ih (r.setTransmissionData c).1 (k - (r.acceptOps c).length)
-      refine ⟨j + 1, by simp; omega, ?_⟩
-      rw [hdump]
-      simp [feed_cons]
+    intro r op h
+    rw [feedOps_cons, List.mem_append] at h
+    rcases h with h | h
+    · exact acceptOps_safe r c op h
+    · exact ih _ op h
+
+/-- no call of `setTransmissionData` ever changes the stored snapshot -/
+theorem set_keeps_dump (r : Ser) (c : Option Chunk) : (r.setTransmissionData c).1.fs.dump = r.fs.dump := by
+  rw [set_fs]; exact FS.run_safe_dump _ _ (acceptOps_safe r c)
+
+theorem feed_keeps_dump (cs : List (Option Chunk)) : ∀ (r : Ser), (r.feed cs).1.fs.dump = r.fs.dump := by
+  induction cs with
+  | nil => intro r; rfl
+  | cons c cs ih => intro r; rw [feed_cons]; simp only; rw [ih, set_keeps_dump]
+
+/-- a kill anywhere inside an incoming transfer leaves the dump exactly as it was -/
+theorem feedOps_crash (cs : List (Option Chunk)) (r : Ser) (k : Nat) :
+    (r.fs.crashAt (r.feedOps cs) k).dump = r.fs.dump :=
+  FS.crashAt_safe_dump _ _ _ (feedOps_safe cs r)
+
+-- ------------------------------------------------------------------------------------------------
+-- finishIncoming
+-- ------------------------------------------------------------------------------------------------
+
+theorem finish_none (s : Ser) (accept : Bool) (h : s.incSnap = false) : s.finishIncoming accept = (s, true) := by
+  simp [Ser.finishIncoming, h]
+
+theorem finish_reject_dump (s : Ser) : (s.finishIncoming false).1.fs.dump = s.fs.dump := by
+  unfold Ser.finishIncoming Ser.finishOps
+  by_cases h : s.incSnap = true
+  · cases hm : s.mode <;> simp [h, Ser.snapSlot, hm, FS.run, FS.apply, FS.set]
+  · simp [h]
+
+theorem finish_accept_dump (s : Ser) (b : Bytes) (hs : s.incSnap = true) (hb : s.incoming = some b) :
+    (s.finishIncoming true).1.fs.dump = some b ∧ (s.finishIncoming true).2 = true ∧
+    (s.finishIncoming true).1.incSnap = false := by
+  have hb' : s.fs.get s.snapSlot = some b := by simpa [Ser.incoming, hs] using hb
+  unfold Ser.finishIncoming Ser.finishOps
+  simp only [hs, Bool.not_true, Bool.false_eq_true, if_false, if_true, hb']
+  cases hm : s.mode <;> simp [Ser.snapSlot, hm, FS.get] at hb' ⊢ <;>
+    simp [FS.run, FS.apply, FS.get, FS.set, hb']
+
+/-- crash analysis of the install: one primitive operation -/
+theorem finishOps_crash (s : Ser) (accept : Bool) (k : Nat) :
+    (s.fs.crashAt (s.finishOps accept) k).dump = s.fs.dump ∨
+    (accept = true ∧ s.incSnap = true ∧ (s.fs.crashAt (s.finishOps accept) k).dump = s.incoming ∧ s.incoming ≠ none) := by
+  unfold Ser.finishOps
+  by_cases hs : s.incSnap = true
+  · cases accept
+    · left
+      cases hm : s.mode <;> cases k <;> simp [hs, Ser.snapSlot, hm, FS.crashAt, FS.run, FS.apply, FS.set]
+    · cases k with
+      | zero => left; simp [FS.crashAt, FS.run]
+      | succ k =>
+        cases hg : s.fs.get s.snapSlot with
+        | none =>
+          left
+          simp [hs, FS.crashAt, FS.run, FS.apply, hg]
+        | some b =>
+          right
+          refine ⟨rfl, hs, ?_, by simp [Ser.incoming, hs, hg]⟩
+          cases hm : s.mode <;> simp [Ser.snapSlot, hm, FS.get] at hg <;>
+            simp [hs, Ser.incoming, Ser.snapSlot, hm, FS.crashAt, FS.run, FS.apply, FS.get, FS.set, hg]
+  · left; simp [hs, FS.crashAt, FS.run]
 
 end PSO.Serializer
